@@ -16,7 +16,7 @@ def parseOp (op : String) (kv : KV) : Option Op :=
   | "hold" => do pure (.hold (← getB kv "name") (← getBool kv "v"))
   | "arm" => do pure (.arm (← get kv "label"))
   | "disarm" => do pure (.disarm (← get kv "label"))
-  | "deploy" => do pure (.deploy (← getNat kv "c") (← getB kv "svc") ((getB kv "host").getD ((getB kv "svc").getD [])) false (← getL kv "targets") (← getNat kv "dt") (← getNat kv "drt"))
+  | "deploy" => do pure (.deploy (← getNat kv "c") (← getB kv "svc") ((getB kv "host").getD ((getB kv "svc").getD [])) false (← getL kv "targets") (← getNat kv "dt") (← getNat kv "drt") ((getNat kv "rt").getD 0))
   | "rollout-deploy" => do pure (.deploy (← getNat kv "c") (← getB kv "svc") [] true (← getL kv "targets") (← getNat kv "dt") (← getNat kv "drt"))
   | "pause" => do pure (.pause (← getNat kv "c") (← getB kv "svc") (← getNat kv "drt") (← getNat kv "failafter"))
   | "stop" => do pure (.stop (← getNat kv "c") (← getB kv "svc") (← getNat kv "drt") (← getB kv "msg"))
